@@ -15,7 +15,7 @@ RULE = ("A case is (protocol version, operation under test: LAN.send / LAN.authe
         "followed by the honest message, optional segmentation). Part 'catalogue' enumerates the mutation "
         "catalogue x phase x operation; 'random' draws parameters. Distinct = distinct plan; non-trivial = a hostile "
         "message was delivered to the client."
-        " Later additions: hostile bytes arriving 0.5-3.3 s late, intact packets with surplus bytes behind them ('v2_trailing'), floods of 40-2500 packets.")
+        " Later additions: hostile bytes arriving 0.5-3.3 s late, intact packets with surplus bytes behind them ('v2_trailing'), intact signed packets with arbitrary clock / message-id / reserved header fields ('v2_header'), floods of 40-2500 packets.")
 ASSUMPTIONS = [
     "allowed outcomes: LAN level = list of frames | ProtocolError (incl. AuthenticationError) | TimeoutError; "
     "device level = refresh returns normally, authenticate raises only AuthenticationError",
@@ -48,6 +48,13 @@ def v2_catalogue():
     for n in (1, 5, 6, 40, 56, 200):
         cat.append({"v2": {"kind": "random", "n": n}})
     cat.append({"v2": {"kind": "empty_frame"}})
+    # intact packets with header fields that are not what a well-behaved unit sends: impossible calendar times
+    # (centiseconds, second, minute, hour, day, month, year%100, year//100), all-ones, odd message ids and tails
+    for ts in ("ff" * 8, "0000000000000000", "000000000d0d1814", "0000001800011814", "0000000000011814", "000000001e021814",
+               "6400000001011814", "003c000001011814", "0000000001010000", "00000000010163ff", "0000000001000000"):
+        cat.append({"v2": {"kind": "v2_header", "ts": ts, "msg_id": ts != "ff" * 8, "tail": False}})
+    cat.append({"v2": {"kind": "v2_header"}})
+    cat.append({"v2": {"kind": "v2_header", "magic": "2000"}})
     for hx in ("8370", "837000", "83700020", "8370002003", "8370" + "00" * 6, "5a5a", "5a5a0111", "5a", "00", "aa", "aa21ac",
                "ff" * 17, "5a5a01113800" + "00" * 50):
         cat.append({"v2": {"kind": "v2_trailing", "hex": hx}})
@@ -213,8 +220,10 @@ def space(tier):
     def rnd(j, rng):
         v = rng.choice([2, 3])
         if v == 2:
-            kind = rng.choice(["v2_len", "v2_enc", "v2_badpad", "v2_trunc", "random", "v2_trailing"])
-            if kind == "v2_len":
+            kind = rng.choice(["v2_len", "v2_enc", "v2_badpad", "v2_trunc", "random", "v2_trailing", "v2_header"])
+            if kind == "v2_header":
+                b = {"v2": {"kind": kind, "ts": rand_bytes(rng, 8).hex(), "msg_id": rng.random() < 0.5, "tail": rng.random() < 0.5}}
+            elif kind == "v2_len":
                 b = {"v2": {"kind": kind, "value": rng.choice([rng.randrange(0, 200), rng.randrange(0, 65536)]),
                             "resign": rng.random() < 0.7, "trail": rng.choice([0, 0, 3, 40])}}
             elif kind == "v2_enc":
